@@ -333,10 +333,11 @@ def cases_for(tier):
     for a in a_opts:
         for b in (('good',), ('stale',)):
             for c in ([('good', 'good', 'good'), ('good', 'bad', 'good'), ('stale', 'good', 'never')]
-                      if q else itertools.product(('good', 'bad', 'never'), repeat=3)):
+                      if q else itertools.product(('good', 'bad'), repeat=3)):
                 for h in ([('good', 'good', 'good'), ('good', 'never', 'absent'),
                            ('bad', 'good', 'good')] if q
-                          else itertools.product(('good', 'never', 'absent'), repeat=3)):
+                          else [h_ for h_ in itertools.product(('good', 'never', 'absent'), repeat=3)
+                                if h_.count('absent') <= 1]):
                     for onions in ((0, 11, 60) if q else (0, 9, 11, 51, 60)):
                         for own in ('good', 'stale'):
                             for tor in (False, True):
